@@ -60,8 +60,10 @@ func (t DataType) Bytes(endian binary.ByteOrder, value interface{}, length int64
 		t := asetime.DurationFromDateTime(value.(time.Time))
 		t -= asetime.DurationFromDateTime(asetime.Epoch1900())
 
+		days, _ := splitDays(t)
+
 		bs := make([]byte, length)
-		endian.PutUint32(bs, uint32(t.Days()))
+		endian.PutUint32(bs, uint32(days))
 		return bs, nil
 	case TIME, TIMEN:
 		dur := asetime.DurationFromTime(value.(time.Time))
@@ -74,17 +76,16 @@ func (t DataType) Bytes(endian binary.ByteOrder, value interface{}, length int64
 		t := asetime.DurationFromDateTime(value.(time.Time))
 		t -= asetime.DurationFromDateTime(asetime.Epoch1900())
 
-		days := t.Days()
+		days, rest := splitDays(t)
 
 		bs := make([]byte, length)
 		switch length {
 		case 4: // SHORTDATE/DATETIME4, DATETIMEN(4)
-			s := asetime.ASEDuration(t.Microseconds() - days*int(asetime.Day))
+			s := asetime.ASEDuration(rest)
 			binary.LittleEndian.PutUint16(bs[:2], uint16(days))
 			binary.LittleEndian.PutUint16(bs[2:], uint16(s.Minutes()))
 		case 8: // DATETIME, DATETIMEN(8)
-			s := t.Microseconds() - days*int(asetime.Day)
-			s = asetime.MillisecondToFractionalSecond(s)
+			s := asetime.MillisecondToFractionalSecond(rest)
 			binary.LittleEndian.PutUint32(bs[:4], uint32(days))
 			binary.LittleEndian.PutUint32(bs[4:], uint32(s))
 		}
@@ -132,4 +133,17 @@ func (t DataType) Bytes(endian binary.ByteOrder, value interface{}, length int64
 	}
 
 	return bs, nil
+}
+
+// splitDays splits a duration relative to an epoch into whole days and
+// the remaining microseconds of the day. The remainder is never
+// negative, also for durations before the epoch.
+func splitDays(d asetime.ASEDuration) (int, int) {
+	days := d.Days()
+	rest := d.Microseconds() - days*int(asetime.Day)
+	if rest < 0 {
+		days--
+		rest += int(asetime.Day)
+	}
+	return days, rest
 }
